@@ -6,7 +6,8 @@ VERIF="$(dirname "$HERE")"
 REPO="${VERIF_REPO:-/repo}"
 SEED="${VERIF_SEED:-20260923}"
 export CARGO_NET_OFFLINE=true
-mkdir -p "$VERIF/shadow/gen" "$VERIF/bin" "$VERIF/replays" "$VERIF/evidence"
+OUT="${VERIF_OUT:-$VERIF}"
+mkdir -p "$VERIF/shadow/gen" "$VERIF/bin" "$OUT/replays" "$OUT/evidence" "$VERIF/scratch"
 sed "s|@REPO@|$REPO|g" "$VERIF/shadow/Cargo.toml.in" > "$VERIF/shadow/gen/Cargo.toml.new"
 cmp -s "$VERIF/shadow/gen/Cargo.toml.new" "$VERIF/shadow/gen/Cargo.toml" 2>/dev/null || mv "$VERIF/shadow/gen/Cargo.toml.new" "$VERIF/shadow/gen/Cargo.toml"
 rm -f "$VERIF/shadow/gen/Cargo.toml.new"
@@ -41,11 +42,11 @@ case "${1:-}" in
       it=$iters; [ "$M" = 10000 ] && it=$((iters/20+2))
       for s in $(seq 0 $((shards-1))); do
         sched=random; [ $((s%2)) = 1 ] && sched=pct
-        "$VERIF/bin/simthreads-$T-$M" run $scen $sched $it $((SEED+s)) "$VERIF/replays" "$pieces/$T-$M-$s.json" > "$pieces/$T-$M-$s.log" 2>&1 &
+        "$VERIF/bin/simthreads-$T-$M" run $scen $sched $it $((SEED+s)) "$OUT/replays" "$pieces/$T-$M-$s.json" > "$pieces/$T-$M-$s.log" 2>&1 &
       done
       wait
     done
-    python3 "$HERE/merge.py" "$prop" "$tier" "$SEED" "$t0" "$pieces" "$VERIF"; rc=$?
+    python3 "$HERE/merge.py" "$prop" "$tier" "$SEED" "$t0" "$pieces" "$VERIF" "$OUT"; rc=$?
     rm -rf "$pieces"
     exit $rc ;;
   *) echo "usage: run.sh C15|C09 quick|thorough | replay <file>"; exit 2 ;;
